@@ -16,7 +16,7 @@ RULE = (
     'G-truth datasets x grid steps {1, 0.5, 0.25, 0.1, 0.2, 0.3, 0.7, 2.5, 5} '
     'x EVERY level k of the assembled curve as reference (finite sweep, '
     'exhaustive per dataset and curve in the thorough tier; the quick tier '
-    'caps the sweep at 24 evenly spread levels per curve), passed on the command line as '
+    'caps the sweep at 24 evenly spread levels per curve plus the levels at and next to 0 mm), passed on the command line as '
     'repr(k*step) and as the exact decimal product (e.g. -37.9); off-grid '
     'references (k+f)*step with f in {0.1 .. 0.9} and, at the level farthest '
     'from 0 mm, f = 0.01 and -0.002; no reference; one reference run per curve '
@@ -96,8 +96,11 @@ def check(case):
                 # quick tier: at most 24 levels per curve (ends, and an
                 # even stride in between); thorough sweeps every level
                 stride = len(sweep) / 24.0
+                # (always with the levels at and next to 0 mm, where a
+                # reference of 0 or -0.0 is an unexpected equality)
                 sweep = sorted({sweep[int(i * stride)] for i in range(24)}
-                               | {sweep[0], sweep[-1]})
+                               | {sweep[0], sweep[-1]}
+                               | ({-1, 0, 1} & set(sweep)))
             for n, k in enumerate(sweep):
                 exact = str(Decimal(k) * Decimal(grid))
                 forms = {'repr': [repr(k * h)], 'decimal': [exact],
